@@ -24,7 +24,7 @@ func init() { register(c19{}) }
 
 func (c19) ID() string { return "C19" }
 func (c19) Rule() string {
-	return "systematic: (1) And/Or truth tables for every arity 0..3 x every assignment of constant leaf filters, Not x {T,F}; (2) every location of gen.Universe(L=5|6, arity<=3) as the single feature x every bound pair (l,u) in [-1,L+1]^2 incl. zero-length and reversed bounds x {Within,Overlap}, and x {ForwardStrand,ReverseStrand}; (3) the order axioms of LocationLess on a location universe (quick: Universe(4,3)+80 random = ~320, thorough: Universe(5,3)+60 random = ~620): one case per ordered pair (a,b) checking irreflexivity (a==b), asymmetry, and transitivity through every c of the universe, plus that a forward contiguous residue part that starts and ends before another is less. seeded: (4) tables of 0..8 features (keys {a,b,gene,source}, qualifier names {a,b,n,ab} incl. repeated names merged into multi-valued qualifiers, values {'',a,b,ab,ba,aab,c,n,a=b,=,b=a=n}, locations gen.RandLoc over 12 residues, both strands, joins/orders, nesting<=3, sites, ambiguous spans) x a filter expression: either a selector assembled from (key, 0..3 clauses (name, regexp)) with regexps {'',a,^a$,a|b,[ab]+,.,^$,b$,^ab,n,c,\\w,a\\.?b,\\bb,[ab]\\w*,a=b,=,b=,=a=|c} (backslash escapes that do not precede a '/'; regexps that hold '=' themselves) or a random And/Or/Not tree (depth<=3, arity 0..3) over Key, Qualifier, Selector, Within, Overlap, ForwardStrand, ReverseStrand and constant leaves; the filter is applied to every feature and through FeatureSlice.Filter; (5) insertion sequences of 0..9 features into an empty table through FeatureSlice.Insert only (20% source keys, locations from the universe and gen.RandLoc, many ties). Oracle: selector structure is known from assembly; accept iff key empty or equal and every clause holds (named+regexp: some value of that qualifier matches (regexp.MatchString); named only: the qualifier is present; unnamed: some value of any qualifier matches); And=all (true for none), Or=some (false for none), Not; Within = every part l<=Lo&&Hi<=u, Overlap = some part Lo<u&&l<Hi on the model's part spans, forward/reverse = every part on that strand; don't-cares evaluated under both readings and either accepted: zero-length sites (as zero-length spans / ignored), bounds with u<=l (swapped / denoting nothing). Filter == accepted features in table order, deep-equal, table unaltered. Insert: result multiset == old + new (deep-equal), no source after a non-source, no later non-source location LocationLess than an earlier one. The empty clause also stands last, closed by a slash ('key//'). Not generated (statement silent): an escaped slash '\\/', a bare trailing slash 'key/', qualifier entries without any value, tables holding two Props entries of the same name, invalid regexps. non-trivial: table non-empty and the filter is not a constant / pair of different locations / sequence of >=2 insertions; distinct: canonical case text. Keys that differ in case only (a/A, gene/Gene); gts select with a second selector whose text extends the first one's. A fifth of the inserted features repeat an earlier one word for word; gts select with a selector that accepts the source feature, also under -v. gts select with the empty selector."
+	return "systematic: (1) And/Or truth tables for every arity 0..3 x every assignment of constant leaf filters, Not x {T,F}; (2) every location of gen.Universe(L=5|6, arity<=3) as the single feature x every bound pair (l,u) in [-1,L+1]^2 incl. zero-length and reversed bounds x {Within,Overlap}, and x {ForwardStrand,ReverseStrand}; (3) the order axioms of LocationLess on a location universe (quick: Universe(4,3)+80 random = ~320, thorough: Universe(5,3)+60 random = ~620): one case per ordered pair (a,b) checking irreflexivity (a==b), asymmetry, and transitivity through every c of the universe, plus that a forward contiguous residue part that starts and ends before another is less. seeded: (4) tables of 0..8 features (keys {a,b,gene,source}, qualifier names {a,b,n,ab} incl. repeated names merged into multi-valued qualifiers, values {'',a,b,ab,ba,aab,c,n,a=b,=,b=a=n}, locations gen.RandLoc over 12 residues, both strands, joins/orders, nesting<=3, sites, ambiguous spans) x a filter expression: either a selector assembled from (key, 0..3 clauses (name, regexp)) with regexps {'',a,^a$,a|b,[ab]+,.,^$,b$,^ab,n,c,\\w,a\\.?b,\\bb,[ab]\\w*,a=b,=,b=,=a=|c} (backslash escapes that do not precede a '/'; regexps that hold '=' themselves) or a random And/Or/Not tree (depth<=3, arity 0..3) over Key, Qualifier, Selector, Within, Overlap, ForwardStrand, ReverseStrand and constant leaves; the filter is applied to every feature and through FeatureSlice.Filter; (5) insertion sequences of 0..9 features into an empty table through FeatureSlice.Insert only (20% source keys, locations from the universe and gen.RandLoc, many ties). Oracle: selector structure is known from assembly; accept iff key empty or equal and every clause holds (named+regexp: some value of that qualifier matches (regexp.MatchString); named only: the qualifier is present; unnamed: some value of any qualifier matches); And=all (true for none), Or=some (false for none), Not; Within = every part l<=Lo&&Hi<=u, Overlap = some part Lo<u&&l<Hi on the model's part spans, forward/reverse = every part on that strand; don't-cares evaluated under both readings and either accepted: zero-length sites (as zero-length spans / ignored), bounds with u<=l (swapped / denoting nothing). Filter == accepted features in table order, deep-equal, table unaltered. Insert: result multiset == old + new (deep-equal), no source after a non-source, no later non-source location LocationLess than an earlier one. The empty clause also stands last, closed by a slash ('key//'). Not generated (statement silent): an escaped slash '\\/', a bare trailing slash 'key/', qualifier entries without any value, tables holding two Props entries of the same name, invalid regexps. non-trivial: table non-empty and the filter is not a constant / pair of different locations / sequence of >=2 insertions; distinct: canonical case text. Keys that differ in case only (a/A, gene/Gene); gts select with a second selector whose text extends the first one's. A fifth of the inserted features repeat an earlier one word for word; gts select with a selector that accepts the source feature, also under -v. gts select with the empty selector. The axiom universe holds orders and joins whose members are complemented one by one; a location whose residues all lie in front of another's is less, never the other way round."
 }
 
 func (c19) RequiredBuckets(tier string) []string {
@@ -892,6 +892,18 @@ func c19AxiomUniverse(c *fw.Ctx) []gts.Location {
 		L := []int{4, 6, 12}[r.Intn(3)]
 		uni = append(uni, gen.RandLoc(r, gen.LocOpt{L: L, MaxParts: 4, MaxDepth: 3, Ambiguous: true, Overlap: r.Intn(2) == 0, Sites: true}))
 	}
+	// compound locations whose members are complemented one by one (orders keep
+	// them that way; joins of both strands too).
+	for _, l := range []gts.Location{
+		gts.Order(gts.Range(3, 5).Complement(), gts.Range(7, 9).Complement()),
+		gts.Order(gts.Range(0, 2).Complement(), gts.Range(9, 11).Complement()),
+		gts.Join(gts.Range(3, 5).Complement(), gts.Range(7, 9)),
+		gts.Join(gts.Range(1, 2), gts.Range(4, 6).Complement()),
+		gts.Order(gts.Range(6, 8), gts.Range(10, 12).Complement()),
+		gts.Range(5, 7), gts.Range(9, 10), gts.Range(2, 3).Complement(), gts.Range(11, 12),
+	} {
+		uni = append(uni, l)
+	}
 	return uni
 }
 
@@ -946,6 +958,33 @@ func (m c19) axioms(c *fw.Ctx) {
 				c.Bucket("axiom:starts-and-ends-before")
 				if !less[i][j] {
 					c.Violate("LocationLess:earlier-span-not-less", enc, "LocationLess(a,b) == true (a starts and ends before b)", "false")
+				}
+			}
+			// whatever the strands and the nesting: a location whose residues all
+			// lie in front of every residue of another one comes first.
+			if ai, aj := model.Parts(uni[i]), model.Parts(uni[j]); len(ai) > 0 && len(aj) > 0 {
+				hi, lo, okk := -1, 1<<30, true
+				for _, q := range ai {
+					if q.Kind == model.KSite {
+						okk = false
+					}
+					if q.Hi > hi {
+						hi = q.Hi
+					}
+				}
+				for _, q := range aj {
+					if q.Kind == model.KSite {
+						okk = false
+					}
+					if q.Lo < lo {
+						lo = q.Lo
+					}
+				}
+				if okk && hi <= lo {
+					c.Bucket("axiom:wholly-in-front")
+					if !less[i][j] || less[j][i] {
+						c.Violate("LocationLess:location-wholly-in-front-is-not-less", enc, "LocationLess(a,b) == true and LocationLess(b,a) == false (every residue of a lies in front of every residue of b)", fmt.Sprintf("LocationLess(a,b)=%v LocationLess(b,a)=%v", less[i][j], less[j][i]))
+					}
 				}
 			}
 			if less[i][j] {
